@@ -2,6 +2,7 @@ import SimuVerif.Lemmas.SurfaceSplitSwap
 import SimuVerif.Lemmas.SurfaceCollapseEuler
 import SimuVerif.Lemmas.Field
 import SimuVerif.Gen.RemeshConsts
+import SimuVerif.Lemmas.RemeshRefine
 /-
   C01 — cell surfaces stay closed, consistently oriented 2-manifolds under remeshing.
 
@@ -159,6 +160,47 @@ theorem split_volume (a b c : V3 R) :
   field_simp
   ring
 end volume
+
+
+/-! ### the executable bookkeeping model refines the abstract operations (proved for split and swap)
+
+  `Model/Remesh.lean` is the model the correspondence harness compares bit for bit with the real `cell` /
+  `local_mesh_refiner`.  For an edge split and an edge swap the link to the abstract operations is a theorem,
+  for any scalar type (so also at `Float`); for the collapse (`replace_node` walks the fan around a node) it is
+  validated on every executed operation by the driver and not proved. -/
+section refinement
+open Simu.Remesh
+variable {R : Type} [Add R] [Sub R] [Mul R] [Div R] [Neg R] [Lit R] [LT R] [LE R] [DecidableLT R] [DecidableLE R] [DecidableEq R]
+
+/-- the live triangles after the concrete `split_edge` are exactly the abstract split of the live triangles before -/
+theorem split_refines {fn : Fn R} {k : SplitConsts R} {c c' : Cell R} {e : Edge} {chk chk' : CheckSet}
+    (h : splitEdge fn k c e chk = .ok (c', chk')) (hf : FaceFreeOk c) (hI : Inv (Remesh.abs c))
+    (hab : e.n1 ≠ e.n2) (he : EdgeFaces c e e.n1 e.n2) :
+    (Remesh.abs c').Perm (splitT (Remesh.abs c) e.n1 e.n2 (Simu.C11.newSlot c)) ∧ FaceFreeOk c' :=
+  splitEdge_refines h hf hI hab he
+
+/-- the live triangles after the concrete `swap_edge` are the abstract swap, up to rotation of the new triangles -/
+theorem swap_refines {fn : Fn R} {c c' : Cell R} {e : Edge}
+    (h : swapEdge fn c e = .ok c') (hf : FaceFreeOk c) (hI : Inv (Remesh.abs c))
+    (hab : e.n1 ≠ e.n2) (he : EdgeFaces c e e.n1 e.n2) (hidx : EdgeIdxSound c)
+    (hg : SwapGuard (Remesh.abs c) e.n1 e.n2) :
+    TriEquiv (Remesh.abs c') (swapT (Remesh.abs c) e.n1 e.n2) ∧ FaceFreeOk c' :=
+  swapEdge_refines h hf hI hab he hidx hg
+
+/-- hence the concrete split and swap keep the surface invariant of the live triangle list -/
+theorem concrete_split_inv {fn : Fn R} {k : SplitConsts R} {c c' : Cell R} {e : Edge} {chk chk' : CheckSet}
+    (h : splitEdge fn k c e chk = .ok (c', chk')) (hf : FaceFreeOk c) (hI : Inv (Remesh.abs c))
+    (hab : e.n1 ≠ e.n2) (he : EdgeFaces c e e.n1 e.n2) (hfresh : Fresh (Remesh.abs c) (Simu.C11.newSlot c))
+    (hg : ∀ t1 t2, findDir (Remesh.abs c) e.n1 e.n2 = some t1 → findDir (Remesh.abs c) e.n2 e.n1 = some t2 →
+      opp t1 e.n1 e.n2 ≠ opp t2 e.n2 e.n1) : Inv (Remesh.abs c') :=
+  splitEdge_inv h hf hI hab he hfresh hg
+
+theorem concrete_swap_inv {fn : Fn R} {c c' : Cell R} {e : Edge}
+    (h : swapEdge fn c e = .ok c') (hf : FaceFreeOk c) (hI : Inv (Remesh.abs c))
+    (hab : e.n1 ≠ e.n2) (he : EdgeFaces c e e.n1 e.n2) (hidx : EdgeIdxSound c)
+    (hg : SwapGuard (Remesh.abs c) e.n1 e.n2) : Inv (Remesh.abs c') :=
+  swapEdge_inv h hf hI hab he hidx hg
+end refinement
 
 /-! ### non-vacuity -/
 def tetra : List Tri := [(0, 1, 2), (0, 3, 1), (0, 2, 3), (1, 3, 2)]
